@@ -413,7 +413,16 @@ def wicks(expr, rules: Rules = None, simplify_kronecker_deltas: bool = False):
             result = _contract_operator_string(op_string)
             result = (Mul(*c_part) * result).expand()
             if simplify_kronecker_deltas:
-                result = evaluate_deltas(result)
+                # The contraction of general indices introduces additional
+                # contracted indices. Therefore, the target indices have to
+                # be determined for the input term (indices that only occur
+                # on a single object).
+                idx_counter = {}
+                for factor in expr.args:
+                    for s in factor.atoms(Index):
+                        idx_counter[s] = idx_counter.get(s, 0) + 1
+                target_idx = [s for s, n in idx_counter.items() if n == 1]
+                result = evaluate_deltas(result, target_idx=target_idx)
     else:  # neither add, Mul, NO or Operator -> maybe a number or a tensor
         return expr
 
